@@ -82,6 +82,11 @@ def _ops():
     add("bulk:T1B1large,bad", [(T1, B1, True), ("bogus", B1)], 1, False)
     add("cli:sheet")
     add("cli:sheet/premium")
+    # operations that end early or raise: whatever a run sets up must not outlive it
+    add("cli:empty_dir")
+    add("cli:only_cm_files")
+    add("bulk:raises_midway", [(T1, B1), (T1,), (T3, B1)], 1, False)
+    add("new:nested_pair", (T1, B1), (1, 2))
     add("show:T1/B1", T1, B1)
     return ops
 
@@ -124,7 +129,10 @@ def apply_op(name, state):
         _, t, b, large = op
         return ColorPair(t, b, large_text=large).is_readable
     if kind == "new":
-        p = ColorPair(op[1], op[2])
+        try:
+            p = ColorPair(op[1], op[2])
+        except Exception as e:  # noqa
+            return "raised " + type(e).__name__
         return pair_state(p)
     if kind.startswith("P."):
         if "P" not in state:
@@ -140,8 +148,21 @@ def apply_op(name, state):
             res = p.make_readable(mode=op[1], very_readable=op[2])
         after = pair_state(p)
         return {"result": _jsonable(res), "pair_unchanged": before == after, "before": before, "after": after}
+    if kind == "bulk" and name == "bulk:raises_midway":
+        try:
+            return _jsonable(make_readable_bulk(list(op[1]), mode=op[2], very_readable=op[3]))
+        except Exception as e:  # noqa
+            return "raised " + type(e).__name__
     if kind == "bulk":
         return _jsonable(make_readable_bulk(list(op[1]), mode=op[2], very_readable=op[3]))
+    if kind == "cli" and name in ("cli:empty_dir", "cli:only_cm_files"):
+        from mc.cli import run as R
+
+        with R.Workdir() as w, R.Workdir() as cwd:
+            if name == "cli:only_cm_files":
+                w.write("old_cm.css", SHEET)
+            res = R.run_cli([w.path], cwd.path)
+            return {"stdout": res["stdout"].replace(w.path, "<dir>"), "exit": res["exit_code"], "listing": w.listing()}
     if kind == "cli":
         from mc.cli import run as R
 
@@ -452,7 +473,7 @@ def run(ctx):
         % (depth, len(ops), len(WORKLOADS), "" if q else " and <= 2 pre-emptions at loop granularity (one point per loop iteration + calls of core/CLI functions)")
     )
     # ---- references (fresh exec per operation) and hash seeds ----------------------------------------
-    all_ops = sorted(set(ops) | {n for w in WORKLOADS.values() for n in w})
+    all_ops = sorted(set(ops) | {n for w in WORKLOADS.values() for n in w} | {"cli:empty_dir", "cli:only_cm_files", "bulk:raises_midway"})
     refs = {}
     for name, _seed, ob in ctx.pmap(reference, [(n, None) for n in all_ops]):
         if ob[0] == "harness":
@@ -477,6 +498,17 @@ def run(ctx):
     for d in range(1, depth + 1):
         base = ops_r if d < 3 else [o for o in ops_r if o not in ("mr:yellow/B1/m2", "mr:aaa/B1/m1", "cli:sheet/premium", "mr:rgba/B1/m1", "mr:hsl/B1/m1")][:24]
         seqs += [list(s) for s in itertools.product(base, repeat=d)]
+    # abnormal-termination prefix, then two queries on the same base pair differing in one setting (both orders)
+    ABN = ["cli:empty_dir", "cli:only_cm_files", "bulk:raises_midway"]
+    FAM = [["mr:T1/B1/m1", "mr:T1/B1/m1/vr", "mr:T1/B1/m1/large", "mr:T1/B1/m0", "mr:T1/B1/m2", "P.mr:m1", "P.mr:m0/vr"],
+           ["mr:far/m1", "mr:far/m1/vr", "mr:far/m1/large", "mr:far/m0"]]
+    for a in ABN:
+        seqs.append([a])
+        for o in ops_r:
+            seqs.append([a, o])
+        for fam in FAM:
+            for x, y in itertools.permutations(fam, 2):
+                seqs.append([a, x, y])
     # longest first, interleaved so chunks are balanced
     seqs.sort(key=len, reverse=True)
     csize = 24
